@@ -22,9 +22,10 @@ CFG = {
                      "the external sixel decoder (go-sixel) is a parameter: safety of the DCS arm is proved under the hypothesis DecoderTame "
                      "(no panic / unbounded allocation / unbounded loop on a payload that sixelTooLarge lets through), which the C05 stream "
                      "checks on the real library on every generated payload (counter dcs:DECODER-CRASH-WITHIN-LIMIT, note hypothesis_violations)",
-                     "Go int is modelled by unbounded Int: proved sound for 38 of the 73 translated bodies (Props/C05Overflow range_<fn>: every +/- "
+                     "Go int is modelled by unbounded Int: proved sound for 38 of the 73 translated bodies and for print() with insert mode off (Props/C05Overflow range_<fn>: every +/- "
                      "stays within 2^62 on every good state with parameters clamped to 0..65535; round 4: range_cht, range_cbt for EVERY state and tab-stop list — "
-                     "the counter of the walk stays within 0..ps); for print, resize and the bodies with little or no arithmetic "
+                     "the counter of the walk stays within 0..ps; range_print_partial: print() on every good state with insert mode (IRM) off and glyph width <= 65535, across the wrap's vt.nel() call); "
+                     "for print with IRM on (range_print_full is stated, not proved), resize and the bodies with little or no arithmetic "
                      "(sgr, osc, modes, decsc/decrc/ris, the reply arms) it still rests on the bounds of the safety lemmas and the correspondence run",
                      "evalBody (the meaning of the translated bodies) fixes loop bounds, vt.width()/height() and the pen at loop entry and treats a "
                      "return inside a final loop as break; function-level loops (forS over the snapshot of the old screen, forParams, forSgr walking the "
